@@ -172,6 +172,7 @@ def register_dispatch(S):
                  "(same(callee_arg('_send', 0, 'msg'), MSG_REPLY) or same(callee_arg('_send', 0, 'msg'), MSG_EXCEPTION))")
     S.contract(F + "_dispatch_request", params={"self": "obj:Connection", "seq": "val", "raw_args": "val"},
                abstract_calls={"self._HANDLERS[handler]": "handler_run", "logger.debug": "log"},
+               calls={"_unbox": {"behaviour": "any"}},
                init=QUIET,
                requires=["plain(seq)", "sized(seq)", "plain(raw_args)", "haskey(self._config, 'logger')",
                          "not self._closed", "not isnone(self._local_root)", TABLE_OK,
@@ -233,7 +234,7 @@ def register_requests(S):
                          TABLE_OK,
                          "haskey(self._config, 'propagate_SystemExit_locally')",
                          "haskey(self._config, 'propagate_KeyboardInterrupt_locally')"] + OPEN,
-               calls={"load": {"behaviour": "safety"}},
+               calls={"load": {"behaviour": "safety"}, "_unbox": {"behaviour": "any"}},
                ensures={"quiescent_after": ("isnil(self._send_queue.items) and not self._sendlock.held and "
                                             "implies(not self._closed, not isnone(self._local_root)) and " + TABLE_OK,
                                             ["C11", "C08", "C12"]),
@@ -242,21 +243,21 @@ def register_requests(S):
                    "n_callees('_dispatch_request') + n_callees('_seq_request_callback') == 1", P8),
                    "request_layout": (
                    "implies(n_callees('_dispatch_request') == 1, "
-                   "head(items(decoded(data))) == MSG_REQUEST and "
-                   "same(callee_arg('_dispatch_request', 0, 'seq'), head(tail(items(decoded(data))))) and "
-                   "same(callee_arg('_dispatch_request', 0, 'raw_args'), head(tail(tail(items(decoded(data)))))))", P8),
+                   "nth_item(decoded(data), 0) == MSG_REQUEST and "
+                   "same(callee_arg('_dispatch_request', 0, 'seq'), nth_item(decoded(data), 1)) and "
+                   "same(callee_arg('_dispatch_request', 0, 'raw_args'), nth_item(decoded(data), 2)))", P8),
                    "response_to_the_request_with_that_number": (
                    "implies(n_callees('_seq_request_callback') == 1, "
-                   "same(callee_arg('_seq_request_callback', 0, 'seq'), head(tail(items(decoded(data))))) and "
+                   "same(callee_arg('_seq_request_callback', 0, 'seq'), nth_item(decoded(data), 1)) and "
                    "(callee_arg('_seq_request_callback', 0, 'is_exc') == False and n_callees('_unbox') == 1 and "
-                   " head(items(decoded(data))) == MSG_REPLY and "
+                   " nth_item(decoded(data), 0) == MSG_REPLY and "
                    " same(callee_arg('_seq_request_callback', 0, 'obj'), callee_result('_unbox', 0)) and "
-                   " same(callee_arg('_unbox', 0, 'package'), head(tail(tail(items(decoded(data)))))) "
+                   " same(callee_arg('_unbox', 0, 'package'), nth_item(decoded(data), 2)) "
                    " if n_callees('_unbox') == 1 else "
                    " callee_arg('_seq_request_callback', 0, 'is_exc') == True and n_callees('_unbox_exc') == 1 and "
-                   " head(items(decoded(data))) == MSG_EXCEPTION and "
+                   " nth_item(decoded(data), 0) == MSG_EXCEPTION and "
                    " same(callee_arg('_seq_request_callback', 0, 'obj'), callee_result('_unbox_exc', 0)) and "
-                   " same(callee_arg('_unbox_exc', 0, 'raw'), head(tail(tail(items(decoded(data))))))))", P8)},
+                   " same(callee_arg('_unbox_exc', 0, 'raw'), nth_item(decoded(data), 2))))", P8)},
                raises={"BaseException": {"props": P8, "variants": MAYBE_DOWN, "state": [
                    "n_callees('_dispatch_request') + n_callees('_seq_request_callback') <= 1",
                    "not self._sendlock.held", "implies(not self._closed, not isnone(self._local_root))", TABLE_OK]}},
